@@ -196,6 +196,12 @@ func eachNullCase(yield func(*NullCase) bool) {
 type NullProgCase struct {
 	ProgCase
 	NilStyle bool `json:"nilstyle,omitempty"` // absent lists / maps as nil slices / nil maps
+	// PtrStyle: required bindings are untagged non-nil pointers; after the accepted
+	// evaluation the same Callable is given a value of the SAME Go type in which the pointer of
+	// NilName is nil (an absent optional where the program requires the payload): it must be
+	// refused, never evaluated
+	PtrStyle bool   `json:"ptrstyle,omitempty"`
+	NilName  string `json:"nilname,omitempty"`
 }
 
 func genNullProg(t *rapid.T) *NullProgCase {
@@ -220,6 +226,19 @@ func genNullProg(t *rapid.T) *NullProgCase {
 		v = v.Conform(nil) // host data has one field order per position
 		c.Vals[n] = v
 		c.Env[n] = v.T
+	}
+	if rapid.IntRange(0, 2).Draw(t, "ptrstyle") == 0 {
+		var req []string
+		for n, v := range c.Vals {
+			if v.T.K != m.TMaybe {
+				req = append(req, n)
+			}
+		}
+		sortStringsInPlace(req)
+		if len(req) > 0 {
+			c.PtrStyle, c.NilStyle = true, false
+			c.NilName = req[rapid.IntRange(0, len(req)-1).Draw(t, "nilname")]
+		}
 	}
 	return c
 }
@@ -326,10 +345,14 @@ func checkNullProg(c *NullProgCase) *Outcome {
 	if !run.HostableEnv(pc.Env) {
 		return skip("env-not-hostable")
 	}
-	var envObj interface{}
-	if c.NilStyle {
+	var envObj, nilObj interface{}
+	switch {
+	case c.PtrStyle:
+		envObj = run.EnvStructPtrMixed(pc.Vals, "")
+		nilObj = run.EnvStructPtrMixed(pc.Vals, c.NilName)
+	case c.NilStyle:
 		envObj = run.EnvStructNil(pc.Vals)
-	} else {
+	default:
 		envObj = run.EnvStruct(pc.Vals)
 	}
 	for _, be := range run.AllBackends {
@@ -353,6 +376,23 @@ func checkNullProg(c *NullProgCase) *Outcome {
 		if err := compareWithRef(pc, r); err != nil {
 			return &Outcome{Err: err}
 		}
+		if nilObj != nil {
+			// same Go type, the pointer of a required binding nil: an optional where the payload is required
+			o2 := &run.Outcome{Be: be}
+			o2.RunPan = run.Guard(func() { o2.Val, o2.RunErr = callable(nilObj) })
+			if o2.RunPan != nil {
+				return bad("%s: host data of the same Go type with %s absent made the Callable panic: %s\n src: %s\n env: %s", be, c.NilName, o2.RunPan.Text, r.Src, envSummary(pc))
+			}
+			if o2.RunErr == nil {
+				return bad("%s: the program requires %s : %s, yet host data of the same Go type in which it is absent (nil pointer) was accepted and evaluated to %s\n src: %s\n env: %s", be, c.NilName, pc.Env[c.NilName], renderVal(o2.Val), r.Src, envSummary(pc))
+			}
+			// and the original data is still accepted afterwards
+			o3 := &run.Outcome{Be: be}
+			o3.RunPan = run.Guard(func() { o3.Val, o3.RunErr = callable(envObj) })
+			if o3.Failed() {
+				return bad("%s: evaluation over the original host data fails after a refused call: %s\n src: %s", be, o3.FailText(), r.Src)
+			}
+		}
 	}
 	present, absent, nested := countOptionals(pc.Vals)
 	classes := []string{}
@@ -368,6 +408,9 @@ func checkNullProg(c *NullProgCase) *Outcome {
 	if c.NilStyle {
 		classes = append(classes, "nil-slice-or-map-style")
 	}
+	if c.PtrStyle {
+		classes = append(classes, "untagged-pointers:then-same-go-type-with-nil")
+	}
 	if pc.Stats["get-maybe"] > 0 {
 		classes = append(classes, "get-with-default")
 	}
@@ -377,7 +420,7 @@ func checkNullProg(c *NullProgCase) *Outcome {
 var c16prog = Register(&Prop[NullProgCase]{ID: "C16", Name: "programs-over-optionals", Gen: genNullProg, Check: checkNullProg})
 
 func TestC16(t *testing.T) {
-	R.Rule = "(a) enumerated: every built-in x every argument position given an optional of the required type (three instantiations of type variables; the parameter's variable optional in one or in all positions), member / subscript access on an optional, optional as index / key, list of optionals where a list of numbers is required - reference checker decides accept / reject, Compile must agree on three back ends, accepted ones are evaluated for present and absent payloads; (b) random well-typed programs over Go host data (structs with tagged nil / non-nil pointers, nil slices and nil maps) that consume optionals through get(optional, default) and move them through polymorphic positions, evaluated on four back ends against the reference; (c) Go containers (slices, arrays, maps) of structs whose pointer / slice / map fields are nil or not per element: either rejected as inconsistent or converted to a value in which every component has the type its container declares (an absent part only at an optional-typed position); non-trivial = the program mentions an optional-typed name"
+	R.Rule = "(a) enumerated: every built-in x every argument position given an optional of the required type (three instantiations of type variables; the parameter's variable optional in one or in all positions), member / subscript access on an optional, optional as index / key, list of optionals where a list of numbers is required - reference checker decides accept / reject, Compile must agree on three back ends, accepted ones are evaluated for present and absent payloads; (b) random well-typed programs over Go host data (structs with tagged nil / non-nil pointers, nil slices and nil maps) that consume optionals through get(optional, default) and move them through polymorphic positions, evaluated on four back ends against the reference; one case in three supplies required bindings as untagged non-nil pointers and then gives the same Callable a value of the same Go type with one of those pointers nil, which must be refused and not evaluated; (c) Go containers (slices, arrays, maps) of structs whose pointer / slice / map fields are nil or not per element: either rejected as inconsistent or converted to a value in which every component has the type its container declares (an absent part only at an optional-typed position); non-trivial = the program mentions an optional-typed name"
 	R.Assume = []string{"ref.Check / ref.Eval"}
 	reportKnown(t, "C16")
 	runRegress(t, "C16")
